@@ -43,6 +43,46 @@ theorem C02_slot_count (n : NodeSt) (nSlots cps gpr lfs mem : Nat) (p : Bool) (s
     slots.length ≤ nSlots ∧ (p = false → slots.length = nSlots) :=
   (findResources_fit n nSlots cps gpr lfs mem p slots hcps hl hm h).2
 
+/-- a GPU amount above one that is not whole cannot be met: the per-node search never extends a placement
+    for it (it raises `cannot share GPUs>1` as soon as the cores of a rank are found) -/
+theorem findOne_fractional (n : NodeSt) (cps gpr lfs mem : Nat) (st st' : FRState) (h1 : gpr ≥ 16) (h2 : gpr % 16 ≠ 0) :
+    findOne n cps gpr lfs mem st ≠ .ok (some st') := by
+  unfold findOne
+  simp only [h1, h2, if_true, ge_iff_le, ne_eq, not_false_eq_true]
+  repeat' split
+  all_goals simp
+
+/-- **a request that cannot be met as stated is refused, not granted smaller**: for `gpus_per_rank` above
+    one and not whole, whatever the node looks like, the search returns no slot at all (or the error) - in
+    particular never `floor(gpus_per_rank)` whole GPUs per rank -/
+theorem C02_fractional_above_one (n : NodeSt) (nSlots cps gpr lfs mem : Nat) (p : Bool) (slots : List Slot)
+    (h1 : gpr ≥ 16) (h2 : gpr % 16 ≠ 0) (h : findResources n nSlots cps gpr lfs mem p = .ok (some slots)) :
+    slots = [] := by
+  have key : ∀ (k : Nat) (st : FRState) (res : List Slot), findLoop n cps gpr lfs mem k st = .ok res → res = st.slots := by
+    intro k
+    induction k with
+    | zero => intro st res h; simp [findLoop] at h; exact h.symm
+    | succ k ih =>
+      intro st res h
+      unfold findLoop at h
+      cases hf : findOne n cps gpr lfs mem st with
+      | error e => rw [hf] at h; cases h
+      | ok o =>
+        cases o with
+        | none => rw [hf] at h; simp at h; exact h.symm
+        | some st' => exact absurd hf (findOne_fractional n cps gpr lfs mem st st' h1 h2)
+  unfold findResources at h
+  cases hl : findLoop n cps gpr lfs mem nSlots {} with
+  | error e => rw [hl] at h; cases h
+  | ok res =>
+    rw [hl] at h
+    have := key nSlots {} res hl
+    simp only at h
+    split at h
+    · cases h
+    · simp only [Except.ok.injEq, Option.some.injEq] at h
+      rw [← h, this]
+
 /-- **a request whose per-rank needs exceed a single node is rejected** (an
     AssertionError, i.e. the task is FAILED), never granted a smaller placement -/
 theorem C02_reject (c : Cfg) (s : SchedSt) (r : Req)
